@@ -230,6 +230,12 @@ def accept_decision(rep, ex: Explorer):
                     rep.violation("ACCEPT.decision", site, "comparison", "accepted iff rank(A∧B) < rank(A∧¬B) (strict)", extracted="compares rank(A∧¬B) < rank(A∧B)", required="rank(A∧B) < rank(A∧¬B)", function=site)
                     continue
                 want, slot = lt, f"both defined, v<n={lt}"
+            elif vn is None and isinstance(val, bool):
+                # the answer is given without looking at rank(A∧B): it must be right for both cases; with rank(A∧B)
+                # undefined (no world verifies) the conditional is not accepted
+                rep.check(val is False, "ACCEPT.decision", site, f"rank(A∧B) not consulted (rank(A∧¬B) {'undefined' if nn else 'defined' if nn is False else 'not consulted'})",
+                          "a conditional without verifying world is not accepted, whatever rank(A∧¬B) is", extracted=f"answer {val} without testing rank(A∧B)", required="False when rank(A∧B) is undefined", function=site)
+                continue
             else:
                 raise AnalysisError(f"{site}: acceptance path without a test of rank(A∧B)")
             rep.check(val == want, "ACCEPT.decision", site, slot, f"answer {val}", extracted=str(val), required=str(want), function=site)
@@ -924,6 +930,58 @@ def impacts_keys(rep, ex: Explorer):
     rep.check(check_line is not None and assign_line is not None and check_line < assign_line, "IMPACTS.keys", site_i, "size check first", "a vector of the wrong size is rejected before it replaces the current impacts",
               extracted=f"check at {check_line}, assignment at {assign_line}", required="check before assignment", function=site_i)
     rep.floor("impact keys", len(written), 3)
+
+
+def impacts_accept(rep, ex: Explorer):
+    """IMPACTS.accept on load_impacts: exactly the vectors that are not lists of non-negative integers of the right
+    length are rejected (an impact 0 is legitimate: a redundant conditional), and an accepted vector becomes the impacts."""
+    qual = f"{CR}.load_impacts"
+    site = fn_label(ex.prog, qual)
+    IMP = ("members", ("impactsarg",))
+
+    def setup(I):
+        bb = make_belief_base(I)
+        conds = I.deref(bb).attrs["conditionals"]
+        s = _obj(I, CR, lambda I: {"conditionals": conds, "_impacts": ElemV(("old",), "coll", "int")})
+        b = I.fresh_var("x")
+        lst = I.alloc(HList([("each", b, IMP, PTRUE, Sym(("impval", b), "int"))]))
+        return [s, lst], {}
+
+    paths = ex.run(qual, setup, summaries=_summ(), key="loadimp")
+
+    def classify(key, val):
+        k = key[0]
+        if k == "forall" and key[2] == IMP and key[4][:1] == ("isinstance",) and "int" in repr(key[4]):
+            return "not all integers" if val is False else None
+        if k == "cmp" and key[1] == "==" and isinstance(key[2], tuple) and key[2][0] == "lin":
+            terms = dict(key[2][1][0])
+            if set(terms) == {("len", ("impactsarg",)), ("len", ("keys", "D"))} and sum(terms.values()) == 0 and key[2][1][1] == 0:
+                return "wrong length" if val is False else None
+        if k == "exists" and key[2] == IMP and key[4][:2] == ("cmp", "<"):
+            lin = key[4][2]
+            b = key[1]
+            if lin == ("lin", (((("impval", b), 1),), 0)) and key[4][3] == ("c", 0):
+                return "a negative value" if val is True else None
+            return "other:" + show_pred(key)[:120] if val is True else None
+        return "other:" + show_pred(key)[:120]
+
+    n = 0
+    for p in paths:
+        why = [classify(k, v) for k, v in p.decisions]
+        why = [w for w in why if w]
+        if p.outcome[0] == "raise":
+            n += 1
+            last = why[-1] if why else "unconditional"
+            ok = last in ("not all integers", "wrong length", "a negative value") and len(why) == 1
+            rep.check(ok, "IMPACTS.accept", site, f"rejection: {last[:60]}", "a vector is rejected only for a non-integer entry, a wrong length or a negative entry",
+                      extracted=f"raises {p.outcome[1].cls} when {'; '.join(why) or 'always'}", required="non-integer / wrong length / negative", function=site)
+        elif p.outcome[0] == "return":
+            n += 1
+            rep.check(not why, "IMPACTS.accept", site, "acceptance", "every list of non-negative integers of the right length is accepted", extracted="; ".join(why) or "accepted", required="accepted", function=site)
+            sets = [ev for ev, Q in iter_events(p.events) if ev.kind == "attr.set" and ev.attr == "_impacts"]
+            okv = len(sets) == 1 and view(p.state, sets[0].value) == ("list", (("each", sets[0].value and view(p.state, sets[0].value)[1][0][1], IMP, PTRUE, view(p.state, sets[0].value)[1][0][4]),)) if sets and isinstance(view(p.state, sets[0].value), tuple) and view(p.state, sets[0].value)[1] else False
+            rep.check(bool(sets) and okv, "IMPACTS.accept", site, "assignment", "the accepted vector becomes the impact vector", extracted=f"{len(sets)} assignment(s)", required="_impacts = the given values", function=site)
+    rep.floor("load_impacts paths", n, 4)
 
 
 def _always_raises(body):
